@@ -8,6 +8,10 @@
 2. Conformance: every encoding of the modr family and of the addressing-heavy instruction forms
    (Rn + StepZIDS, ArRn/ArStep with offsets, ArpRn/ArpStep pairs) executed by the real interpreter from
    boundary-clustered states and validated in full (register file after, exact addresses accessed).
+3. The repository's own hardware test vectors for this property (src/mod_test_generator: modulo addressing under every
+   offset / step mode / modulo; src/step2_test_generator: +-2 steps under all 512 modulo values), built from the working
+   tree: executed by the real interpreter and validated by TLC (IsaTrace, generator clause), and the other way round --
+   the state TLC predicts (TvReplay) judged by the repository's test_verifier.
 """
 from props import isa_common
 
@@ -95,9 +99,14 @@ def run(ck):
         ck.mc('AddrTheorems', 'MC_Addr_quick.cfg', timeout=1200, coverage=False)
     isa_common.family_check(ck, FAMILY, ck.pick(8, 16), 'c10', rounds=ck.pick(1, 4))
     isa_common.sweep_all(ck, 'c10', seedoff=1000)
+    # 3. the repository's own hardware test vectors for modulo and double-step addressing, both ways (see tool_vectors)
+    isa_common.tool_vectors(ck, ('mod_test_generator', 'step2_test_generator'), 'c10hw')
     ck.assumptions += isa_common.ISA_ASSUMPTIONS + [
         'the cyclic-walk theorem is stated for start addresses inside the buffer (offset <= mod), as the property does']
 
 
 def replay(ck, path):
+    if path.split('#')[0].endswith('.good.bin'):
+        from props import c01
+        return c01.replay(ck, path)
     ck.validate_traces('IsaTrace', 'Trace_Isa.cfg', [path.split('#')[0]])
